@@ -338,8 +338,8 @@ def clause4_taint(ctx, P, cg):
     for (f, call, k, origin) in T.sink_hits():
         name = P.srcname_of(call.callee) if call.callee else "indirect call"
         own_target = call.callee in P.functions and P.own(P.functions[call.callee])
-        if own_target:
-            continue  # followed interprocedurally
+        if own_target and k < P.functions[call.callee].nparams and not name.startswith(("log_", "jet_log")):
+            continue  # followed interprocedurally (variadic arguments and log functions are sinks themselves)
         nsink += 1
         bad = name.startswith(forbidden_prefix) or (not call.callee)
         unknown = (not bad) and name not in allowed and not name.startswith("llvm.")
